@@ -246,6 +246,21 @@ func c19combo(c *Ctx, e *Engine, ops []regOp, paths [][]opPath, idx []int) {
 			cons = append(cons, Or(Lt(a.rel, b.acq, false), Lt(b.rel, a.acq, false)))
 		}
 	}
+	// a failed try-lock needs a conflicting critical section of another thread around it (a pending writer also
+	// makes TryRLock fail, which the sections over-approximate from below: only holders are considered)
+	for _, se := range evs {
+		if se.ev.Kind != "tryfail" {
+			continue
+		}
+		var why []*Term
+		for _, sc := range secs {
+			if sc.thread == se.thread || sc.key != se.ev.Key || (!sc.write && !se.ev.Res) {
+				continue
+			}
+			why = append(why, And(Lt(sc.acq, se.ts, false), Lt(se.ts, sc.rel, false)))
+		}
+		cons = append(cons, Or(why...))
+	}
 	// content per tracked key: 0 absent, 1 initial service, 2+t the service registered by thread t
 	const CW = 4
 	var keys []string
@@ -479,6 +494,8 @@ func c19combo(c *Ctx, e *Engine, ops []regOp, paths [][]opPath, idx []int) {
 				d += "(" + se.ev.Key + ")"
 			} else if se.ev.Kind == "aload" || se.ev.Kind == "astore" {
 				d = fmt.Sprintf("atomic %s entry=%q", map[string]string{"aload": "load", "astore": "store"}[se.ev.Kind], se.ev.Name)
+			} else if se.ev.Kind == "tryfail" {
+				d = "try-lock fails"
 			} else if se.ev.Kind == "lenzero" {
 				d = fmt.Sprintf("len(map)==0 is %v", se.ev.Res)
 			}
